@@ -495,4 +495,5 @@ def data_spec(draw, min_cols=2, max_cols=5, min_rows=1, max_rows=40, max_card=4,
     if weights:
         w = [draw(st.integers(1, 4)) for _ in range(nrows)]
     return {"columns": cols, "states": states, "kinds": ckinds, "rows": rows, "weights": w,
-            "pass_state_names": bool(extra_states) and draw(st.booleans())}
+            "pass_state_names": bool(extra_states) and draw(st.booleans()),
+            "index_mode": draw(st.sampled_from(["default", "default", "default", "reversed_labels", "offset", "strings"]))}
